@@ -25,7 +25,7 @@ CLAIMED = {
             "Weak-to-medium simulation contribution: two code paths + restart equivalence. Totals exactly on a rounding midpoint are DONT_CARE."),
     "C06": ("fault_enumeration",
             "deterministic simulation with fault injection: per world every truncation point / read fault / bit flip / include cycle / hostile mutation, x 6 commands, in crash- and hang-detecting worker processes",
-            "For each seeded world the fault space is enumerated one fault at a time: the file torn at every byte (thorough; ~30-60 biased cuts per file in quick), vanish/EIO/permission/canonicalize failure/bit flip on each file, include cycles, grammar-aware mutations, deep nesting, huge literals, zero divisors; each faulted world is fed to format, accounts, balance, register, flatten and eval. Oracle is totality only: Ok or Err with a message; panics are caught and signed by call site, aborts/stack overflows/hangs are detected by the parent from worker death or silence and re-executed in a fresh process.",
+            "For each seeded world the fault space is enumerated one fault at a time: the file torn at every byte (thorough; ~30-60 biased cuts per file in quick), vanish/EIO/permission/canonicalize failure/EIO after k bytes of the stream/bit flip on each file, include cycles (self, through a file, through a glob, spelled through ../ and ./, sibling directories including each other), grammar-aware mutations, deep nesting, huge literals, zero divisors, and price-DB files (valid, zero-rate, self-rate, negative, malformed lines; torn, vanished, EIO); each faulted world is fed to format, accounts, balance, register, flatten and eval (price DBs to balance -X / --historical / eval -X). Oracle is totality only: Ok or Err with a message; panics are caught and signed by call site, aborts/stack overflows/hangs are detected by the parent from worker death or silence and re-executed in a fresh process.",
             "Stack-overflow thresholds are those of an 8 MiB thread in the opt-level-2 simulation build. Numbers outside the decimal range are exempt by the statement (counted as C06/out-of-range)."),
     "C08": ("exploration",
             "deterministic simulation: every expression tree with up to 2 (quick) / 3 (thorough) leaves plus seeded typed and untyped trees to depth 5, at 7 placements, evaluated by 2-4 simulated processes with different hash seeds and compared with an independent evaluator",
@@ -41,7 +41,7 @@ CLAIMED = {
             "Totals compared with relative tolerance 1e-15. Ties between admissible chains with different rates, totals on a rounding midpoint and rates needed only by exactly-zero amounts are DONT_CARE."),
     "C11": ("exploration",
             "deterministic simulation with fault injection: loader callback sequence vs model flattening under permuted glob enumeration on three file systems (simulated VFS behind ProdFileSystem, FakeFileSystem, real directory), split-vs-unsplit report equality, read faults injected one at a time",
-            "A seeded, order-sensitive entry sequence is cut at entry boundaries into an include tree (up to 8 files, depth 3; literal, sub-directory, '../', './', 'sub/../x/' and '*'/'??' glob includes relative to the including file; dot-files and wrong-base-directory decoys next to the matches; sometimes an include matching nothing). The (path, entry) sequence handed to the Loader::load callback must equal the model's flattening for every glob enumeration order the simulated file system returns (2-4 per world; the thorough tier walks permutations systematically), on the repository's FakeFileSystem, and (1 run in 16) in a real directory through the real OS. balance/register/accounts/flatten of the tree must equal those of the one-file ledger. vanish/EIO/permission/invalid-UTF-8 on a matched file must make loading fail; a failing canonicalize must change nothing.",
+            "A seeded, order-sensitive entry sequence is cut at entry boundaries into an include tree (up to 8 files, depth 3; literal, sub-directory, '../', './', 'sub/../x/' and '*'/'??' glob includes relative to the including file, wildcards in a directory component with file names ordered against the path order, a shared declarations file included from two places; dot-files and wrong-base-directory decoys next to the matches; sometimes an include matching nothing). The (path, entry) sequence handed to the Loader::load callback must equal the model's flattening for every glob enumeration order the simulated file system returns (2-4 per world; the thorough tier walks permutations systematically), on the repository's FakeFileSystem, and (1 run in 16) in a real directory through the real OS. balance/register/accounts/flatten of the tree must equal those of the one-file ledger. vanish/EIO/permission/invalid-UTF-8 on a matched file must make loading fail; a failing canonicalize must change nothing.",
             "okane's own parser, applied to each file separately, defines the entries of a file. Level is exploration over trees; per tree the fault placement is one fault at a time on 0-2 drawn files, not every file."),
     "C12": ("exploration",
             "deterministic simulation: metamorphic pair (canonical-name ledger A, alias-rewritten ledger B in the same include tree) reported by simulated processes with different hash seeds and glob orders; byte equality of reports, no alias shown, model comparison; planted alias conflicts must be rejected at the declaration",
@@ -53,7 +53,7 @@ CLAIMED = {
             "For syntax errors the extent is the whole broken entry, not the exact point where parsing stopped; column numbers and underlined sub-spans are not judged."),
     "C13": ("exploration",
             "deterministic simulation: same world and argv run in 2-6 simulated processes differing in hash seed, glob enumeration order, read/write chunking, EINTR and clock; outputs compared byte for byte",
-            "The property is schedule independence, and the simulator owns every schedule okane depends on: per-process hash keys (content-hashed interned strings + seeded SipHash for every HashMap/HashSet in okane), glob enumeration order, stream chunking with short reads/writes and EINTR, and the calendar date. Each seeded world (accepted and failing ledgers, multi-commodity accounts, price diamonds, include trees) is run with 2-6 commands in 2-6 processes; stdout bytes, success/failure and the rendered error chain must be identical.",
+            "The property is schedule independence, and the simulator owns every schedule okane depends on: per-process hash keys (content-hashed interned strings + seeded SipHash for every HashMap/HashSet in okane), glob enumeration order, stream chunking with short reads/writes and EINTR, and the calendar date. Each seeded world (accepted and failing ledgers, multi-commodity accounts, price diamonds, shallow and deep include trees with wildcards in directory components; a fifth of the runs are `okane import` worlds: CSV and camt.053 statements under layered configurations, multi-field rule elements, hostile text, header labels that no longer match) is run with 1-6 commands in 2-6 processes; stdout bytes, success/failure and the rendered error chain must be identical. One run in 64 also executes every command with the shipped, unhooked binary on the world materialised in a real directory and compares exit status and stdout (stub fidelity); a failing stdout (EPIPE after k bytes) is recorded as a probe.",
             "Hash maps inside dependencies keep RandomState (their order never reaches output). Simulated orders are a subset of what production can produce."),
     "C15": ("exploration",
             "deterministic simulation: seeded CSV, camt.053 and Viseca statements with hostile text, imported by 2-3 simulated processes differing in hash seed and in the chunking of the YAML / statement streams (short writes and EINTR on stdout for the shipped command); printed output parsed back with okane's parser and compared with the built trees",
